@@ -2,7 +2,7 @@
 // Unit walk_spread: crates/checker/src/operation_checker/mod.rs::check_fragment_spread   (one step of the walk)
 // Oracle: spec 5.5.2.1 Fragment Spread Target Defined, 5.5.2.2 Fragment Spreads Must Not Form Cycles (the name is not
 // among the fragments already being expanded, and it is recorded for the expansion below it), 5.7 directives valid at
-// FRAGMENT_SPREAD, and the fragment's selection set is checked against its type condition incl. applicability (callee).
+// FRAGMENT_SPREAD, the directives of the fragment's definition at FRAGMENT_DEFINITION, and the fragment's selection set is checked against its type condition incl. applicability (callee).
 #![feature(pattern, allocator_api)]
 #![allow(unused)]
 use vstd::prelude::*;
@@ -26,6 +26,8 @@ pub open spec fn def_spread<'a, 'src, S>(fm: &FragmentMap<'a, 'src>, seen: Seq<S
     &&& dirs_valid(sch, vars, sp.directives@, "FRAGMENT_SPREAD"@)
     &&& !seen.contains(sp.fragment_name.name@)
     &&& fm@.contains_key(sp.fragment_name.name)
+    // the directives written on the fragment DEFINITION are validated where it is spread (variables in scope are known there)
+    &&& dirs_valid(sch, vars, fm@[sp.fragment_name.name].directives@, "FRAGMENT_DEFINITION"@)
     &&& {
         let target = fm@[sp.fragment_name.name];
         schema_types(sch).contains_key(target.type_condition.name@) ==>
